@@ -162,6 +162,11 @@ func checkDiagDelivery(sc *bw.Scenario, w *world, res *vresult, out *simkit.Outc
 			sig = s[strings.Index(s, "|")+1:]
 		}
 		want := counts[e.ID]
+		if r.va.Tracer != "" && nt == 0 {
+			// no tracer (or none that takes diagnostics) in this variant: delivery to the caller is all there is
+			nt = want
+			out.Probe("diagnostics-without-tracer")
+		}
 		if nt != want || na != want {
 			out.Violate("C12", "diag-delivery", "count", fmt.Sprintf("variant %d: finder diagnostic %s emitted %d time(s), delivered %d time(s) to the tracer and %d time(s) to Add callers", vi, e.ID, want, nt, na))
 			continue
@@ -723,6 +728,16 @@ func checkRoundTripLookups(sc *bw.Scenario, w *world, cl *closure, b *sourcebund
 			if err != nil || filepath.Clean(back) != filepath.Clean(lp) {
 				out.Violate(prop, "reverse-lookup", "not-inverse", fmt.Sprintf("path %s -> %s -> %q (%v)", lp, src, back, err))
 			}
+			if p == "" {
+				// several packages may share this directory: which of them is named is a function
+				// of the bundle, not of the call (each call iterates the package table afresh)
+				for i := 0; i < 8; i++ {
+					if again, err := b.SourceForLocalPath(lp); err != nil || again.String() != src.String() {
+						out.Violate(prop, "reverse-lookup", "alias-unstable", fmt.Sprintf("path %s translates to %s in one call and to %v (%v) in another on the same bundle", simkit.CanonString(lp), src, again, err))
+						break
+					}
+				}
+			}
 			n++
 		}
 	}
@@ -805,9 +820,6 @@ func linkOrModeDiffer(w *world, a, b int) bool {
 	for p, x := range fa {
 		y, ok := fb[p]
 		if x.Kind != "file" && (!ok || x.Kind != y.Kind || x.Target != y.Target) {
-			return true
-		}
-		if ok && x.Mode != y.Mode {
 			return true
 		}
 	}
